@@ -15,10 +15,23 @@ import (
 	"golang.org/x/tools/go/packages"
 )
 
-type c15RecLoader struct{ envs [][]string }
+// c15RecLoader records the environment every Load call would run the go command with (a nil
+// cfg.Env means the process environment) and answers according to a script: failAt[i] makes the
+// i-th call return a driver error (the environment answer a hostile or broken module can force).
+type c15RecLoader struct {
+	envs   [][]string
+	failAt map[int]bool
+}
 
 func (l *c15RecLoader) Load(cfg *packages.Config, patterns ...string) ([]*packages.Package, error) {
-	l.envs = append(l.envs, append([]string{}, cfg.Env...))
+	env := cfg.Env
+	if env == nil {
+		env = os.Environ()
+	}
+	l.envs = append(l.envs, append([]string{}, env...))
+	if l.failAt[len(l.envs)-1] {
+		return nil, fmt.Errorf("go list: driver error (scripted)")
+	}
 	return nil, nil
 }
 
@@ -84,43 +97,46 @@ func TestVerifC15Deps(t *testing.T) {
 	for _, tgt := range targets {
 		for _, amb := range ambients {
 			for _, transitive := range []bool{false, true} {
-				idx++
-				if !vh.Mine(idx) {
-					continue
-				}
-				restore()
-				for _, e := range amb {
-					i := strings.IndexByte(e, '=')
-					os.Setenv(e[:i], e[i+1:])
-				}
-				rec := &c15RecLoader{}
-				_, err := loadPackagesWithDeps(rec, tgt, transitive)
-				r.Eval()
-				rel, _ := filepath.Rel(scratch, tgt)
-				key := fmt.Sprintf("deps/%s/%s/transitive=%v", rel, strings.Join(amb, "|"), transitive)
-				if len(rec.envs) == 0 {
-					r.Fail("loader was not invoked for %s (err=%v)", tgt, err)
-					return
-				}
-				r.Nontrivial(key)
-				for _, env := range rec.envs {
-					for k, want := range c15cliWant {
-						for _, last := range []bool{true, false} {
-							for _, cs := range []bool{true, false} {
-								got, ok := c15cliResolve(env, k, last, cs)
-								good := ok && got == want
-								if k == "GOFLAGS" {
-									good = ok && strings.Contains(" "+got+" ", " -mod=readonly ") && !strings.Contains(got, "-mod=mod") && !strings.Contains(got, "-toolexec")
-								}
-								if !good {
-									r.Violate(key+"/"+k, fmt.Sprintf("loader for target %s received effective %s=%q (present=%v, lastWins=%v caseSensitive=%v), want %q; ambient extra=%q", rel, k, got, ok, last, cs, want, amb), map[string]interface{}{"target": rel, "ambient": amb, "transitive": transitive})
+				for _, script := range []map[int]bool{nil, {0: true}, {0: true, 1: true}} {
+					idx++
+					if !vh.Mine(idx) {
+						continue
+					}
+					restore()
+					for _, e := range amb {
+						i := strings.IndexByte(e, '=')
+						os.Setenv(e[:i], e[i+1:])
+					}
+					rec := &c15RecLoader{failAt: script}
+					_, err := loadPackagesWithDeps(rec, tgt, transitive)
+					r.Eval()
+					rel, _ := filepath.Rel(scratch, tgt)
+					key := fmt.Sprintf("deps/%s/%s/transitive=%v/loader-errors=%d", rel, strings.Join(amb, "|"), transitive, len(script))
+					r.Max("max_load_calls_per_run", int64(len(rec.envs)))
+					if len(rec.envs) == 0 {
+						r.Fail("loader was not invoked for %s (err=%v)", tgt, err)
+						return
+					}
+					r.Nontrivial(key)
+					for _, env := range rec.envs {
+						for k, want := range c15cliWant {
+							for _, last := range []bool{true, false} {
+								for _, cs := range []bool{true, false} {
+									got, ok := c15cliResolve(env, k, last, cs)
+									good := ok && got == want
+									if k == "GOFLAGS" {
+										good = ok && strings.Contains(" "+got+" ", " -mod=readonly ") && !strings.Contains(got, "-mod=mod") && !strings.Contains(got, "-toolexec")
+									}
+									if !good {
+										r.Violate(key+"/"+k, fmt.Sprintf("loader for target %s received effective %s=%q (present=%v, lastWins=%v caseSensitive=%v), want %q; ambient extra=%q", rel, k, got, ok, last, cs, want, amb), map[string]interface{}{"target": rel, "ambient": amb, "transitive": transitive})
+									}
 								}
 							}
 						}
 					}
-				}
-				if idx%7 == int(vh.Seed()%7) {
-					r.Sample(map[string]interface{}{"target": rel, "ambient_extra": amb, "transitive": transitive, "env_tail": rec.envs[0][max(0, len(rec.envs[0])-8):]})
+					if idx%7 == int(vh.Seed()%7) {
+						r.Sample(map[string]interface{}{"target": rel, "ambient_extra": amb, "transitive": transitive, "env_tail": rec.envs[0][max(0, len(rec.envs[0])-8):]})
+					}
 				}
 			}
 		}
